@@ -34,6 +34,7 @@ type C13Case struct {
 	Artefact  string      `json:"artefact"` // file the consumer reads as a patch
 	Target    string      `json:"target"`   // document the consumer applies it to
 	Skew      []string    `json:"skew,omitempty"`
+	Env       [][2]string `json:"env,omitempty"`
 }
 
 func applyDiskFault(fs, before *simos.FS, f DiskFault, sector int) bool {
@@ -317,7 +318,7 @@ func checkC13(c C13Case) (*Violation, []string, *caseInfo) {
 			// must report it with status 2
 			want = cliModel(p.Bin, p.Arg0, p.Argv, fs, stdinBytes(fs, p, prev))
 		}
-		res := runProc(fs, p, IOCfg{c.Sector, c.FileChunk, false, nil}, prev)
+		res := runProc(fs, p, IOCfg{c.Sector, c.FileChunk, false, c.Env}, prev)
 		log = append(log, eventLog(i, res)...)
 		prev = res.Stdout
 		info.Steps += len(res.Steps)
@@ -621,6 +622,9 @@ func genCase13(c *Chooser) C13Case {
 		consumer.Faults = []simos.Fault{{Step: c.Int(8), Kind: kinds[c.Int(len(kinds))], Param: c.Int(40)}}
 	}
 	cs.Procs = append(cs.Procs, consumer)
+	if c.Chance(1, 5) {
+		cs.Env = genEnv(c)
+	}
 	sort.Strings(cs.Skew)
 	return cs
 }
@@ -672,7 +676,7 @@ func shrink13(raw json.RawMessage) []json.RawMessage {
 		var prev []byte
 		for i, p := range c.Procs[:len(c.Procs)-1] {
 			before := fs.Clone()
-			res := runProc(fs, p, IOCfg{c.Sector, c.FileChunk, false, nil}, prev)
+			res := runProc(fs, p, IOCfg{c.Sector, c.FileChunk, false, c.Env}, prev)
 			prev = res.Stdout
 			for _, df := range c.Disk {
 				if df.After == i {
